@@ -16,6 +16,14 @@ CLAIMED = {
         ref="DESIGN.md section 5 C17",
         technique="Coq proof (induction over inserts, index invariant) + differential correspondence against the real PathSearchIndex evaluated by vm_compute",
         note=TB + " Interner injectivity; regex/rustc_demangle enter as a predicate."),
+    "C14": dict(
+        text=("Theorems (Coq, unbounded op sequences and thread counts): every thread's DR0-3/DR7, decoded as the CPU decodes them, equals the "
+              "registry's active set slot by slot (C14_invariant), at most four, refusals without side effects, slot reuse, DR6 flush; DR7 encodings "
+              "proved equal to the architecture's over constants regenerated from the source. Tie: bit functions and real multi-threaded watchpoint "
+              "histories (PTRACE_PEEKUSER of every thread) replayed through the model and the spec inside Coq."),
+        ref="DESIGN.md section 5 C14",
+        technique="Coq proof (machine invariant by induction over commands; bit-level lemmas by testbit rewriting) + translator for DR constants + differential correspondence (unit and end-to-end) evaluated by vm_compute",
+        note=TB + " ptrace debug-register writes are assumed to succeed in the theorem (the e2e leg observes what the kernel really holds); data-breakpoint delivery is not available on this machine, so hit reporting is not exercised."),
 }
 
 NOT_YET = {
